@@ -53,6 +53,9 @@ pub enum Op {
     Disable,
     Enable,
     EnableMax(u8),
+    /// calls that are not supposed to touch the label policy: replace the CRC calculator by an equal one,
+    /// read it back, ask whether re-use is enabled
+    Accessors,
 }
 
 pub fn op_str(op: &Op) -> String {
@@ -64,6 +67,7 @@ pub fn op_str(op: &Op) -> String {
         Op::Disable => "disable".into(),
         Op::Enable => "enable".into(),
         Op::EnableMax(n) => format!("enable_max({})", n),
+        Op::Accessors => "set_crc_calculator/get_crc_calculator/is_enabled_re_use_label".into(),
     }
 }
 
@@ -88,7 +92,7 @@ pub fn alphabet_c15() -> Vec<Op> {
     v.push(Op::Enc { label: 0, outcome: Outcome::TooLong, ext: false });
     v.push(Op::Enc { label: 0, outcome: Outcome::TooLong, ext: true });
     v.push(Op::Enc { label: 7, outcome: Outcome::Fits, ext: false });
-    v.extend([Op::Reset, Op::Disable, Op::Enable, Op::EnableMax(0), Op::EnableMax(1), Op::EnableMax(2), Op::EnableMax(255)]);
+    v.extend([Op::Reset, Op::Disable, Op::Enable, Op::EnableMax(0), Op::EnableMax(1), Op::EnableMax(2), Op::EnableMax(255), Op::Accessors]);
     v
 }
 
@@ -114,7 +118,7 @@ pub fn alphabet_c04() -> Vec<Op> {
     v.push(Op::Enc { label: 0, outcome: Outcome::FragTail, ext: false });
     v.push(Op::Enc { label: 2, outcome: Outcome::FragTail, ext: false });
     v.push(Op::Enc { label: 1, outcome: Outcome::HeaderOnly, ext: false });
-    v.extend([Op::Cont, Op::ContStale, Op::Reset, Op::Disable, Op::Enable, Op::EnableMax(0), Op::EnableMax(1), Op::EnableMax(2)]);
+    v.extend([Op::Cont, Op::ContStale, Op::Reset, Op::Disable, Op::Enable, Op::EnableMax(0), Op::EnableMax(1), Op::EnableMax(2), Op::Accessors]);
     v
 }
 
@@ -234,6 +238,12 @@ impl Exec {
                 self.enc.enable_re_use_label_with_max_consecutive(*n);
                 self.enabled = true;
                 self.max_n = *n;
+                true
+            }
+            Op::Accessors => {
+                self.enc.set_crc_calculator(DefaultCrc {});
+                let _ = self.enc.get_crc_calculator();
+                let _ = self.enc.is_enabled_re_use_label();
                 true
             }
             Op::Cont => {
@@ -475,6 +485,7 @@ pub fn random_op(rng: &mut Rng, with_fail_kinds: bool) -> Op {
         3 => Op::EnableMax([0u8, 1, 2, 3, 5, 255][rng.below(6)]),
         4 | 5 => Op::Cont,
         6 => Op::ContStale,
+        7 => Op::Accessors,
         _ => {
             let label = [0u8, 0, 1, 2, 2, 3, 4, 5, 0, 2, 7][rng.below(11)];
             let outcome = match rng.below(if with_fail_kinds { 14 } else { 11 }) {
